@@ -24,8 +24,10 @@ import (
 	"verif/internal/ev"
 )
 
-const rule = "case = rapid-drawn (primary engine config with a 1-4 KiB or 32 MiB memtable, key pool, 1-4 phases of 1-30 primary operations " +
-	"over put/delete/multi-key transaction/explicit flush with a pause of 0-1.5 s after each phase, 1-2 replicas each with a join boundary " +
+const rule = "case = rapid-drawn (primary engine config with a 1-4 KiB or 32 MiB memtable, key pool, 1-4 phases of primary operations " +
+	"over put/delete/multi-key transaction/explicit flush; phase kinds: burst 1-30 ops, big 101-160 ops, bulk 100-160 puts of 11-33 KB followed by a " +
+	"replica join or restart, trickle 1-2 ops after 1.3-2.5 s of idleness, and as last phase 1-5 writes after 3-6 s of idleness with a connected replica; " +
+	"a pause of 0-1.5 s after each other phase; default or 200 ms / 1 s heartbeat; 1-2 replicas each with a join boundary " +
 	"(before, between or after the write phases) and optionally a stop+close / reopen+restart pair of boundaries on the same directory); " +
 	"executed in a child process with real engines and replication.Manager on both sides over loopback TCP; " +
 	"oracle = after the last write, within 60 s + 3 s x phases, Get of every pool key and a full scan of every replica engine equal those of the " +
@@ -56,16 +58,16 @@ func TestChild(t *testing.T) {
 
 // Doc is the replay document.
 type Doc struct {
-	Property  string  `json:"property"`
-	Signature string  `json:"signature,omitempty"`
-	Case      Case    `json:"case"`
+	Property  string `json:"property"`
+	Signature string `json:"signature,omitempty"`
+	Case      Case   `json:"case"`
 	// Cases (optional, replay files only): further cases that belong to the same
 	// document; TestReplay executes all of them side by side and fails with the
 	// signature of the first one (in order: Case, Cases...) that fails.
-	Cases []Case `json:"cases,omitempty"`
-	Message   string  `json:"message,omitempty"`
-	Result    *Result `json:"child_result,omitempty"`
-	Note      string  `json:"note,omitempty"`
+	Cases   []Case  `json:"cases,omitempty"`
+	Message string  `json:"message,omitempty"`
+	Result  *Result `json:"child_result,omitempty"`
+	Note    string  `json:"note,omitempty"`
 }
 
 // infra stops the process in a way the driver reports as inconclusive
@@ -83,7 +85,6 @@ func clip(s string, n int) string {
 	}
 	return s
 }
-
 
 // runChild executes one case in a child process. A child that cannot start,
 // dies or exceeds the cap without a result is an infrastructure error.
